@@ -153,6 +153,54 @@ func (m *monitor) onLeaderAppend(n int, term, off int64) {
 	m.termLog[term] = m.c.shadowLog(n)
 }
 
+// onRolledBack: a Truncate removed entries from a follower; none of them may belong to a prefix that an earlier leader
+// had committed (and served).
+func (m *monitor) onRolledBack(l, f int, term int64, before, after []entry) {
+	if len(after) >= len(before) {
+		return
+	}
+	var terms []int64
+	for t := range m.committed {
+		if t < term {
+			terms = append(terms, t)
+		}
+	}
+	sort.Slice(terms, func(i, j int) bool { return terms[i] < terms[j] })
+	for _, t := range terms {
+		pre := m.committed[t]
+		for i := len(after); i < len(before) && i < len(pre); i++ {
+			if !sameEntry(pre[i], before[i]) {
+				break
+			}
+			e := pre[i]
+			if e.term < t {
+				m.c.violate("figure8:old-term-entry-committed-by-count-then-overwritten", fmt.Sprintf(
+					"entry %s (written in term %d) was counted as committed at offset %d by leader %d of term %d (no entry of term %d covered it) and served; leader %d of term %d (head of a higher term) truncated it off follower %d",
+					e.tok(), e.term, i, m.leaders[t], t, t, l, term, f))
+			} else {
+				sig := "commit:committed-entry-lost"
+				detail := fmt.Sprintf("offset %d (entry %s) was committed by the leader of term %d; leader %d of term %d truncated it off follower %d", i, e.tok(), t, l, term, f)
+				for x, dl := range m.deletedLogs {
+					if i < len(dl) && sameEntry(dl[i], e) {
+						sig = "swap:removed-node-deleted-before-new-member-caught-up"
+						detail += fmt.Sprintf("; node %d held it when a swap deleted it", x)
+						break
+					}
+				}
+				for x, rl := range m.removedLogs[term] {
+					if i < len(rl) && sameEntry(rl[i], e) {
+						sig = "swap:committed-copy-only-on-removed-node"
+						detail += fmt.Sprintf("; the removed node %d answered NewTerm(%d) with a log containing it", x, term)
+						break
+					}
+				}
+				m.c.violate(sig, detail)
+			}
+			return
+		}
+	}
+}
+
 // attachDecide is truncateFollowerIfNeeded's decision (leader_controller.go) on (term, length) heads:
 // 0 = no truncation needed, 1 = truncate to (tk, k), 2 = error (follower head term above the leader's).
 func attachDecide(llog []entry, lhTerm int64, lhLen int, fhTerm int64, fhLen int) (int, int64, int) {
@@ -309,6 +357,12 @@ func (m *monitor) afterStep() {
 					break
 				}
 			}
+			if sig == "commit:not-on-quorum" && pre[len(pre)-1].term < term {
+				// the entry at the commit offset is of an older term: the leader re-replicated it and counted
+				// acknowledgements, one of them from a follower that a newer leader has truncated since (figure 8)
+				sig = "figure8:old-term-entry-counted-as-committed-without-quorum"
+				detail += "; the entry at the commit offset was written in an older term and is committed by counting acknowledgements of re-replicated copies"
+			}
 			c.violate(sig, detail)
 		}
 	}
@@ -363,6 +417,15 @@ func (m *monitor) onLeader(n int, term int64) {
 						break
 					}
 				}
+				if sig == "commit:committed-entry-lost" {
+					for x, dl := range m.deletedLogs {
+						if i < len(dl) && sameEntry(dl[i], e) {
+							sig = "swap:removed-node-deleted-before-new-member-caught-up"
+							detail += fmt.Sprintf("; node %d held it when a swap deleted it", x)
+							break
+						}
+					}
+				}
 				c.violate(sig, detail)
 			}
 		}
@@ -410,6 +473,15 @@ func (m *monitor) checkAcked(n int, term int64, lg []entry) {
 				sig = "swap:committed-copy-only-on-removed-node"
 				detail += fmt.Sprintf("; the removed node %d answered NewTerm(%d) with a log containing it, counted for the majority, not as a candidate", x, term)
 				break
+			}
+		}
+		if sig == "acked-write-lost" {
+			for x, dl := range m.deletedLogs {
+				if int(a.off) < len(dl) && dl[a.off].term == a.term && dl[a.off].vid == a.vid {
+					sig = "swap:removed-node-deleted-before-new-member-caught-up"
+					detail += fmt.Sprintf("; node %d held it when a swap deleted it (right after the swap's election, before the members that replaced it had caught up): from then on a single crash loses the write", x)
+					break
+				}
 			}
 		}
 		c.violate(sig, detail)
